@@ -579,11 +579,20 @@ FAIL_TOKENS = {"RuntimeError": ("eRuntimeError", "?"), "KeyError": ("eKeyError",
 
 
 def explained(info, i, e):
-    """is the exception of thread i the direct consequence of its last logged access?"""
+    """is the exception of thread i the direct consequence of its last logged access?  (For the
+    TypeError on a `None` cache the attribute read may be followed by the accesses of a
+    `_context_hash()` call evaluated inside the subscript, and by look-ups in the inner dict.)"""
     mine = [x for x in info["log"].entries if x[0] == i]
+    kind = type(e).__name__
+    if kind == "TypeError":
+        while mine and mine[-1][2][0] in "IN":
+            mine.pop()
+    if kind == "KeyError" and mine and mine[-1][3] != "eKeyError":
+        # key_for: `plugins[target]` on the plain outer/inner dict after the cache was rebuilt by another thread
+        return where_in_context(e) == "key_for" and any(x[2] == "W0" for x in info["log"].entries)
     if not mine:
         return False
-    return mine[-1][3] in FAIL_TOKENS.get(type(e).__name__, ())
+    return mine[-1][3] in FAIL_TOKENS.get(kind, ())
 
 
 def impl_interleaved(case):
@@ -627,16 +636,10 @@ def oracle_interleaved(case, out):
     return "; ".join(msgs) if msgs else None
 
 
-# -- the open findings, as the oracle words them (the same regexes are in known_findings.json)
-_D8_ERRS = (r"(RuntimeError: dictionary changed size during iteration at=(_context_hash|register|_get_plugins|__get_requested_plugins_from_cache)"
-            r"|KeyError: '_temp_\w+' at=\w+"
-            r"|TypeError: [^;]*NoneType[^;]* at=\w+)")
-D8_REGEX = (r"(crash: [^;]*" + _D8_ERRS + r"( explained=1)?"
-            r"|omitted-run: [^;]*swallowed the exception of their worker: (dictionary changed size during iteration|'_temp_\w+'|[^;]*NoneType)[^;]*)"
-            r" \[multi_target=1 workers=([2-9]|\d\d) ")
-D8B_REGEX = (r"crash: [^;]*RuntimeError: dictionary changed size during iteration at=__get_requested_plugins_from_cache"
-             r"( explained=1)? \[multi_target=0 workers=([2-9]|\d\d) cache=cold ")
-KNOWN_SHAPES = [("D8-registry-race", re.compile(D8_REGEX)), ("D8b-plugin-cache-race", re.compile(D8B_REGEX))]
+# -- the open findings are matched by the engine against known_findings.json; `Capped` reads the same regexes
+def known_shapes(ctx):
+    return [(k["id"], re.compile(k["match"]["regex"])) for k in ctx.known.get("open", [])
+            if k.get("property") == ID and "regex" in k.get("match", {})]
 
 
 class Capped:
@@ -646,6 +649,7 @@ class Capped:
 
     def __init__(self, ctx, oracle, cap=1):
         self.ctx, self.oracle, self.cap = ctx, oracle, cap
+        self.shapes = known_shapes(ctx)
         self.seen = {}
         self.first = {}
 
@@ -656,7 +660,7 @@ class Capped:
         parts = msg.split("; ")
         shapes = []
         for p_ in parts:
-            shapes.append(next((name for name, rx in KNOWN_SHAPES if rx.search(p_)), None))
+            shapes.append(next((name for name, rx in self.shapes if rx.search(p_)), None))
         if any(s is None for s in shapes):
             return msg           # something else is wrong: always report
         name = shapes[0]
@@ -797,6 +801,11 @@ def present_runs(res):
     return seen
 
 
+def _ignored(cap):
+    """texts of the exceptions that multi_run logged as ignored"""
+    return [m[len("Ran into "):].rsplit(", ignoring", 1)[0].replace(" ", "_") for m in cap.msgs if m.startswith("Ran into ")]
+
+
 def impl_real(case):
     tkey = case["targets"]
     tmp = tempfile.mkdtemp(prefix="c15real_") if case["storage"] else None
@@ -818,13 +827,13 @@ def impl_real(case):
         try:
             res = getattr(st, case["api"])(list(case["runs"]), TARGETS[tkey], **kw)
         except Exception as e:  # noqa: BLE001
-            return f"err {sl.err_name(e)} | {describe_exc(e)}"
+            return f"err {sl.err_name(e)} | {describe_exc(e)} | ignored=" + ("|".join(_ignored(cap)) or "-")
         finally:
             sys.setswitchinterval(old)
         out = "ok " + hashlib.sha1(canon_table(res).encode()).hexdigest()[:16]
         st.log = QUIET_LOG
-        ignored = [m[len("Ran into "):].rsplit(", ignoring", 1)[0] for m in cap.msgs if m.startswith("Ran into ")]
-        out += " runs=" + (",".join(present_runs(res)) or "-") + " ignored=" + ("|".join(x.replace(" ", "_") for x in ignored) or "-")
+        ignored = _ignored(cap)
+        out += " runs=" + (",".join(present_runs(res)) or "-") + " ignored=" + ("|".join(ignored) or "-")
         if case["api"] == "make":
             # what was made must be loadable afterwards, run by run, and equal the sequential result
             after = []
@@ -848,10 +857,23 @@ def impl_real(case):
 def oracle_real(case, out):
     tag = case_tag(case, workers=case["workers"])
     exp, kinds = expected_table(case)
+    healthy = [r for r in sorted(case["runs"]) if r not in case["fail"]]
+    n_expected_ignored = len([r for r in case["runs"] if r in case["fail"]])
+
+    def swallowed(ignored, missing):
+        foreign = [m for m in ignored if not m.startswith("Failed to process chunk") and "cannot be read" not in m]
+        return (f"omitted-run: healthy run(s) {missing} left out because ignore_errors swallowed the exception of their worker: "
+                f"{' / '.join(foreign or ignored)[:200]} {tag}")
+
     if out.startswith("err "):
-        head, desc = out[4:].split(" | ", 1)
+        head, desc, ign_tok = out[4:].split(" | ", 2)
+        ignored = [] if ign_tok == "ignored=-" else [x.replace("_", " ") for x in ign_tok[8:].split("|")]
         if kinds and not case["ignore"]:
             return None      # a failing run raises
+        if case["ignore"] and len(ignored) > n_expected_ignored:
+            return swallowed(ignored, healthy)
+        if case["ignore"] and not healthy:
+            return None      # every run fails: nothing (not even a dtype) is left to return
         return f"crash: {case['api']} raised {desc} {tag}"
     if kinds and not case["ignore"]:
         return f"{case['api']} returned although run(s) fail with {kinds} and errors are not ignored {tag}"
@@ -860,14 +882,9 @@ def oracle_real(case, out):
     body[0] = head
     present = [] if runs_tok == "runs=-" else runs_tok[5:].split(",")
     ignored = [] if ign_tok == "ignored=-" else [x.replace("_", " ") for x in ign_tok[8:].split("|")]
-    healthy = [r for r in sorted(case["runs"]) if r not in case["fail"]]
-    n_expected_ignored = len([r for r in case["runs"] if r in case["fail"]])
     if case["ignore"] and len(ignored) > n_expected_ignored:
         # ignore_errors swallowed the exception of a run that loads fine on its own
-        foreign = [m for m in ignored if not m.startswith("Failed to process chunk") and "cannot be read" not in m]
-        missing = [r for r in healthy if r not in present] if case["api"] != "make" else ["?"]
-        return (f"omitted-run: healthy run(s) {missing} left out because ignore_errors swallowed the exception of their worker: "
-                f"{' / '.join(foreign or ignored)[:200]} {tag}")
+        return swallowed(ignored, [r for r in healthy if r not in present] if case["api"] != "make" else ["?"])
     if case["api"] == "make":
         if not body[0].startswith(hashlib.sha1(b"none").hexdigest()[:16]):
             return f"make returned something {tag}"
